@@ -114,6 +114,18 @@ def main():
         # canary: one event that must be reported - the oracle has to
         # report it (long payloads are printed over many lines; a collector that loses them once hid real mismatches, DESIGN 0.6)
         evs = vf.read_ndjson(p)
+        # outputs of more than 6,000 units (nested loops over the longer sets) are not judged: the reference interpreter builds the expected text
+        # several times per event, and a handful of such events exhausted 21 GB of heap in the thorough tier
+        big = [e for e in evs if len(e["out"]) > 6000]
+        if big:
+            evs = [e for e in evs if len(e["out"]) <= 6000]
+            with open(p, "w") as f:
+                for e in evs:
+                    f.write(json.dumps(e, separators=(",", ":")) + "\n")
+        c.stage("not-judged-large-output", events=len(big))
+        for e in big:       # (what does not need the reference text is still demanded: append-only, same in every width, value untouched)
+            if not (e["prefix"] == 1 and e["wsame"] == 1 and e["vsame"] == 1):
+                c.violation(sig(e) + " flags prefix=%d wsame=%d vsame=%d" % (e["prefix"], e["wsame"], e["vsame"]), {"kind": "flags", "template": "".join(chr(u) for u in e["t"])})
         # (a synthetic, fully literal event: 900 units of tag-free text whose recorded output differs in one unit)
         canary_line = 0
         if evs:
